@@ -8,6 +8,7 @@ T = {
  "orig-D4": ("C05", "reverse of fix ec0a2dc (block size from file asserted)", "a .sig/.delta file with an illegal block size", ["C05","C20"]),
  "orig-D5": ("C05", "reverse of fix 0341139 (vec![0; len] before reading)", "copy len = u32::MAX with inflated basis_size, under a memory limit", ["C05"]),
  "orig-D6": ("C02", "reverse of fix 960bd48 (stale archive entries)", "3-run history: sync, delete both, sync, re-create, sync", ["C02","C06"]),
+ "orig-D7": ("C02", "reverse of fix 3543541 (conflict-copy lands on a name in use)", "a conflict whose loser content recurs while the earlier conflict-copy was edited, or has a pending delete (3 edits between runs)", ["C02","C07","C06"]),
  "orig-D8": ("C08", "reverse of fix d620c5c (no fsync before rename)", "power loss after the rename", ["C08"]),
  "orig-D9": ("C03", "reverse of fix 57b7bc5 (shared staging name)", "two servers writing one path, one preemption", ["C03","C10","C13"]),
  "orig-D10": ("C10", "reverse of fix d6d074d (3-step Get)", "a commit between the stat/hash/open of a Get", ["C10","C03"]),
